@@ -136,6 +136,12 @@ func main() {
 		os.Exit(cmdDev(os.Args[2:]))
 	case "replay":
 		os.Exit(cmdReplay(os.Args[2:]))
+	case "pegdfa":
+		if os.Args[2] == "stats" {
+			pegStats()
+		} else {
+			pegDebug(os.Args[2])
+		}
 	case "maploops":
 		prog, err := loadProgram("/repo", []string{"./..."})
 		if err != nil {
